@@ -139,7 +139,9 @@ func (p *PostingsList) OrInto(receiver *roaring.Bitmap) {
 // Iterator returns an iterator for this postings list
 func (p *PostingsList) Iterator(includeFreq, includeNorm, includeLocs bool,
 	prealloc segment.PostingsIterator) segment.PostingsIterator {
-	if p.normBits1Hit == 0 && p.postings == nil {
+	if p.normBits1Hit == 0 && (p.postings == nil || p.postings.IsEmpty()) {
+		// nothing to iterate; a reused list keeps its (cleared) bitmap, and
+		// for a field the segment lacks it has no segment to read from
 		return emptyPostingsIterator
 	}
 
